@@ -167,6 +167,15 @@ pub fn eval(c: &CliCase, obs: &mut Obs) -> Vec<Violation> {
     let apath = put("audio.hex", &c.audio);
     let ipath = put("input.bin", &c.info);
     let opath = format!("{}/out.mp4", dir);
+    // the output path may already hold an older (longer or shorter) file: re-running the tool
+    // with the same --output must still leave exactly the new file there
+    let stale = crate::util::fnv(format!("{:?}", c).as_bytes()) % 3;
+    if stale != 2 {
+        let old: Vec<u8> = if stale == 0 { vec![0x5a; 96 * 1024] } else { b"old short".to_vec() };
+        let _ = std::fs::write(&opath, &old);
+        let _ = std::fs::write(format!("{}/report.json", dir), &old);
+        obs.count("runs_with_a_pre_existing_output_file", 1);
+    }
     let mut args: Vec<String> = Vec::new();
     if c.verbose {
         args.push("--verbose".into());
